@@ -559,8 +559,31 @@ fn parse_src(src: &str) -> Result<Program, String> {
     parser::parse(&toks).map_err(|e| format!("parse: {}", e.iter().map(|x| x.message.clone()).collect::<Vec<_>>().join("; ")))
 }
 
+thread_local! {
+    /// (indent_width, line_length) of the current request; (4, 120) is FormatConfig::default()
+    static CFG: std::cell::Cell<(usize, usize)> = std::cell::Cell::new((4, 120));
+}
+
+fn cfg() -> FormatConfig {
+    let (w, l) = CFG.with(|c| c.get());
+    FormatConfig::default().with_indent_width(w).with_line_length(l)
+}
+
+fn default_cfg() -> bool {
+    CFG.with(|c| c.get()) == (4, 120)
+}
+
 fn fmt_prog(p: &Program) -> String {
-    Formatter::new(FormatConfig::default()).format(p)
+    Formatter::new(cfg()).format(p)
+}
+
+/// the public entry point with the request's configuration
+fn fmt_src(src: &str) -> Result<String, incan::format::FormatError> {
+    if default_cfg() {
+        incan::format_source(src)
+    } else {
+        incan::format_source_with_config(src, cfg())
+    }
 }
 
 /// Hygiene of a formatted text: (#final newlines, tabs outside string tokens, lines with trailing
@@ -746,7 +769,7 @@ fn op_decls(src: &str, want_text: bool) -> Value {
     tags(&dump(&prog), &mut tagset);
     let decls: Vec<Value> = prog.declarations.iter().map(|d| check_decl(d, want_text)).collect();
     // whole file through the public entry points
-    let whole = incan::format_source(src);
+    let whole = fmt_src(src);
     let mut wj = json!({});
     match whole {
         Err(e) => wj["fmt"] = json!(format!("error: {}", e)),
@@ -776,13 +799,13 @@ fn op_decls(src: &str, want_text: bool) -> Value {
             }
             wj["compositional"] = json!(joined == text);
             wj["hyg"] = hygiene(&text);
-            wj["check_formatted_src"] = json!(incan::check_formatted(src).ok());
+            wj["check_formatted_src"] = if default_cfg() { json!(incan::check_formatted(src).ok()) } else { json!(src == text) };
             wj["src_eq_fmt"] = json!(src == text);
-            wj["diff_is_none"] = json!(incan::format_diff(src).ok().map(|d| d.is_none()));
-            match incan::format_source(&text) {
+            wj["diff_is_none"] = if default_cfg() { json!(incan::format_diff(src).ok().map(|d| d.is_none())) } else { json!(src == text) };
+            match fmt_src(&text) {
                 Ok(t2) => {
                     wj["idem"] = json!(t2 == text);
-                    wj["check_formatted_out"] = json!(incan::check_formatted(&text).ok());
+                    wj["check_formatted_out"] = if default_cfg() { json!(incan::check_formatted(&text).ok()) } else { json!(t2 == text) };
                     if t2 != text {
                         wj["idem_diff"] = first_diff(&text, &t2);
                     }
@@ -795,7 +818,7 @@ fn op_decls(src: &str, want_text: bool) -> Value {
         }
     }
     // the whole formatted file re-parses into the same declarations as the one-declaration programs do
-    if let Some(text) = incan::format_source(src).ok() {
+    if let Some(text) = fmt_src(src).ok() {
         let per: Option<Vec<String>> = prog
             .declarations
             .iter()
@@ -961,6 +984,7 @@ pub fn run(_args: &[String]) {
         let op = req["op"].as_str().unwrap_or("").to_string();
         let src = req["src"].as_str().unwrap_or("").to_string();
         let want_text = req["text"].as_bool().unwrap_or(false);
+        CFG.with(|c| c.set((req["indent_width"].as_u64().unwrap_or(4) as usize, req["line_length"].as_u64().unwrap_or(120) as usize)));
         let r = catch(|| match op.as_str() {
             "decls" => op_decls(&src, want_text),
             "tie" => op_tie(&src),
